@@ -1,1 +1,142 @@
-//! (families added below)
+//! Control-plane families: C16 (PAUSE/RESUME), C17 (shutdown), C14 (reload), C18 (statistics).
+
+use super::*;
+
+fn q(sql: String, txn: u32) -> Step {
+    Step::Send { msgs: vec![FrontMsg::Q { sql }], rfq: None, cut: None, abort: false, txn }
+}
+
+/// A worker program: `n` transactions of mixed shapes with think times.
+fn worker_prog(p: &mut Prog, rng: &mut Rng, n: u64, think: (u64, u64), allow_ext: bool) {
+    for _ in 0..n {
+        p.new_txn();
+        match rng.below(4) {
+            0 => {
+                let t = p.tag();
+                p.simple(format!("BEGIN /* {} */", t));
+                let s = p.select(1, 0, "");
+                p.simple(s);
+                if rng.chance(0.5) {
+                    p.think(rng.range(1, 40));
+                    let s = p.select(2, 0, "");
+                    p.simple(s);
+                }
+                let t = p.tag();
+                p.simple(format!("COMMIT /* {} */", t));
+            }
+            1 if allow_ext => {
+                let m = super::base::ext_batch(p, rng, "", "", 1, 0, 0, true, false);
+                p.send(m);
+            }
+            _ => {
+                let s = p.select(1, 0, "");
+                p.simple(s);
+            }
+        }
+        p.think(rng.range(think.0, think.1));
+    }
+}
+
+pub fn c16(rng: &mut Rng, thorough: bool, _idx: u64) -> Spec {
+    let two_pools = rng.chance(0.4);
+    let session = rng.chance(0.25);
+    let pool_size = rng.range(1, 3) as u32;
+    let mut cfg = single_pool(if session { "session" } else { "transaction" }, pool_size, rng.range(0, 1) as usize);
+    cfg.set("connect_timeout", 60000);
+    if two_pools {
+        let mut p2 = PoolDef::simple("db2", "transaction", vec![UserDef::new("app", "apppw", pool_size)], vec![ShardDef { id: "0".into(), database: "db2".into(), servers: vec![("pg2-s0-p".into(), 5432, "primary".into())], mirrors: vec![] }]);
+        p2.lb = "random".into();
+        cfg.pools.push(p2);
+    }
+    if rng.chance(0.3) {
+        cfg.set("healthcheck_delay", 0);
+    }
+    let cycles = rng.range(1, if thorough { 4 } else { 2 });
+    // admin: PAUSE / RESUME cycles
+    let mut admin_steps = Vec::new();
+    let mut pause_scopes: Vec<String> = Vec::new();
+    let mut t_prev = rng.range(5, 60);
+    for cyc in 0..cycles {
+        let scope = if two_pools && rng.chance(0.5) { rng.pick(&["db,app", "db2,app"]).to_string() } else { String::new() };
+        admin_steps.push(Step::Think { ms: t_prev });
+        admin_steps.push(q(format!("PAUSE {}", scope).trim().to_string(), 0));
+        admin_steps.push(Step::Emit { ev: format!("paused{}", cyc) });
+        admin_steps.push(Step::Think { ms: rng.range(0, 200) });
+        // sometimes RESUME right after a specific client's message was delivered
+        if rng.chance(0.3) {
+            admin_steps.push(Step::Wait { ev: format!("arrive{}.sent", cyc) });
+        }
+        admin_steps.push(q(format!("RESUME {}", scope).trim().to_string(), 0));
+        admin_steps.push(Step::Emit { ev: format!("resumed{}", cyc) });
+        pause_scopes.push(scope);
+        t_prev = rng.range(1, 80);
+    }
+    admin_steps.push(Step::Terminate);
+    let mut clients = Vec::new();
+    let mut admin = admin_client(500, "main", When::AtMs { ms: 0 }, &[]);
+    admin.steps = admin_steps;
+    clients.push(admin);
+    // workers running throughout
+    let nworkers = rng.range(1, if thorough { 5 } else { 3 }) as u32;
+    for i in 0..nworkers {
+        let id = i + 1;
+        let db = if two_pools && rng.chance(0.4) { "db2" } else { "db" };
+        let mut p = Prog::new(id);
+        let nn = rng.range(2, 8);
+        worker_prog(&mut p, rng, nn, (1, 60), true);
+        p.steps.push(Step::Terminate);
+        clients.push(client(id, "app", db, "apppw", rng.range(0, 30), p.steps));
+    }
+    // clients that arrive (or send their next transaction) only after the PAUSE was acknowledged
+    let mut next_id = 20;
+    for cyc in 0..cycles {
+        let narrive = rng.range(1, 3);
+        for k in 0..narrive {
+            let id = next_id;
+            next_id += 1;
+            let db = if two_pools && rng.chance(0.4) { "db2" } else { "db" };
+            let mut p = Prog::new(id);
+            let connected_before = rng.chance(0.5);
+            if connected_before {
+                // already connected and idle when the pause begins
+                p.new_txn();
+                let s = p.select(1, 0, "");
+                p.simple(s);
+                p.steps.push(Step::Wait { ev: format!("paused{}", cyc) });
+            }
+            p.think(rng.range(0, 20));
+            let nn = rng.range(1, 3);
+            worker_prog(&mut p, rng, nn, (1, 20), true);
+            p.steps.push(Step::Terminate);
+            let mut c = client(id, "app", db, "apppw", rng.range(0, 20), p.steps);
+            if !connected_before {
+                c.start = When::After { ev: format!("paused{}", cyc), delay_ms: rng.range(0, 30) };
+            }
+            if k == 0 {
+                // lets the admin time its RESUME right after this client's first message went out
+                let first_send = c.steps.iter().position(|s| matches!(s, Step::Send { .. } )).unwrap_or(0);
+                let first_after_wait = c.steps.iter().enumerate().filter(|(i, s)| matches!(s, Step::Send { .. }) && (!connected_before || *i > 1)).map(|(i, _)| i).next().unwrap_or(first_send);
+                c.steps.insert(first_after_wait + 1, Step::Emit { ev: format!("arrive{}.sent", cyc) });
+            }
+            clients.push(c);
+        }
+        // make sure the event the admin may wait for always fires eventually
+    }
+    let mut actions = Vec::new();
+    for cyc in 0..cycles {
+        actions.push(ActionSpec { at: When::After { ev: format!("paused{}", cyc), delay_ms: 400 }, act: Action::Emit { ev: format!("arrive{}.sent", cyc) } });
+    }
+    let net = if rng.chance(0.4) { net_calm() } else { net_swarm(rng) };
+    let mut spec = Spec { config_toml: cfg.render(), hosts: cfg.hosts(), net, clients, actions, end: EndSpec { deadline_ms: 2_000_000, calm_ms: 100 }, ..Default::default() };
+    spec.params = params_from(&cfg);
+    spec.params.insert("pause_scopes".into(), serde_json::json!(pause_scopes));
+    // random subset of the yield sites around wait_paused / checkout
+    for site in ["pool.wait_paused.between", "pool.wait_paused.before_wait", "client.after_wait_paused", "client.before_get"] {
+        if rng.chance(0.5) {
+            spec.yield_sites.push((site.to_string(), rng.range(1, 4) as u32));
+        }
+    }
+    spec.family = format!("pause_resume/{}", if session { "session" } else { "transaction" });
+    spec.oracles = vec!["c16_pause".into(), "liveness".into()];
+    spec
+}
